@@ -528,6 +528,83 @@ def run_eigvec(case):
     return out
 
 
+def native_eigen_value():
+    """the real eigendecomposition-based inverse root (default and enhance_stability) against the float64 spectral oracle
+    (A + eps I)^(-1/r) on PSD input with a NON-negligible epsilon, and two successive calls (no hidden state between calls)"""
+    import torch
+    from matrix_functions_types import EigenConfig
+    mf = M()
+    g = torch.Generator().manual_seed(3)
+    for n, eps, root in ((4, 1e-2, Fraction(2)), (6, 0.3, Fraction(4)), (3, 1e-3, Fraction(3, 2))):
+        for stab in (False, True):
+            prev = None
+            for rep in range(2):
+                B = torch.randn(n, n, generator=g, dtype=torch.float64)
+                A = B @ B.T
+                lam, Q = torch.linalg.eigh(A)
+                want = (Q * (lam + eps).pow(-float(1 / root))) @ Q.T
+                got = mf.matrix_inverse_root(A, root, root_inv_config=EigenConfig(enhance_stability=stab), epsilon=eps)
+                rel = float((got - want).norm() / want.norm())
+                # roots 2 and 4: the exponent -1/r is exact in the float32 tensor the code carries it in, so a float64 computation is
+                # accurate to ~1e-13 * cond; anything coarser means a single-precision quantity leaked into the float64 computation
+                if rel > (1e-10 if root.denominator == 1 and root.numerator in (2, 4) else 1e-6):
+                    return f"matrix_inverse_root(A {n}x{n} float64 PSD, root={root}, epsilon={eps}, enhance_stability={stab}) (call {rep + 1} of this size) deviates from (A + eps I)^(-1/r) by {rel:.2e} relative"
+    return None
+
+
+def native_qr_rule():
+    """the real QR method against a float64 re-implementation of the documented rule (stop when the RELATIVE change of the estimate is
+    <= tolerance or the budget is used up), for budgets > 1 and tolerances around the observed changes"""
+    import torch
+    from matrix_functions_types import QRConfig
+    mf = M()
+    g = torch.Generator().manual_seed(11)
+    for n in (4, 6):
+        B = torch.randn(n, n, generator=g, dtype=torch.float64)
+        A = B @ B.T + 0.1 * torch.eye(n, dtype=torch.float64)
+        est, _ = torch.linalg.qr(torch.linalg.eigh(A)[1] + 0.05 * torch.randn(n, n, generator=g, dtype=torch.float64))
+        # relative changes along the reference iteration
+        Q, changes = est, []
+        for _ in range(6):
+            Qn = torch.linalg.qr(A @ Q).Q
+            changes.append(float((Q - Qn).norm() / Q.norm()))
+            Q = Qn
+        for its in (2, 3, 5):
+            for tol in sorted({0.0} | {c * f for c in changes[:4] for f in (0.5, 1.5, 2.0)}):
+                Q, k, err = est, 0, float("inf")
+                while k < its and err > tol:
+                    Qn = torch.linalg.qr(A @ Q).Q
+                    err = float((Q - Qn).norm() / Q.norm())
+                    Q, k = Qn, k + 1
+                ray = torch.einsum("ij,ik,kj->j", Q, A, Q)
+                want = Q[:, ray.argsort()]
+                got = mf.matrix_eigenvectors(A, eigenvectors_estimate=est, eigenvector_computation_config=QRConfig(max_iterations=its, tolerance=tol))
+                dev = float(torch.minimum((got - want).abs().max(dim=0).values, (got + want).abs().max(dim=0).values).max())
+                if dev > 1e-8:
+                    return f"QR method n={n} max_iterations={its} tolerance={tol:.3e}: result differs from the documented rule (relative-change stopping test) by {dev:.2e}"
+    return None
+
+
+def native_qr_frame():
+    """the real QR method must not write its inputs (the estimate is the optimizer's STORED eigenbasis when dtypes are equal)"""
+    import torch
+    from matrix_functions_types import QRConfig
+    mf = M()
+    g = torch.Generator().manual_seed(5)
+    for dt in (torch.float32, torch.float64):
+        B = torch.randn(5, 5, generator=g, dtype=dt)
+        A = B @ B.T
+        est = torch.linalg.qr(torch.randn(5, 5, generator=g, dtype=dt)).Q.contiguous()
+        A0, e0 = A.clone(), est.clone()
+        for its in (1, 3):
+            mf.matrix_eigenvectors(A, eigenvectors_estimate=est, eigenvector_computation_config=QRConfig(max_iterations=its, tolerance=0.0))
+            if not torch.equal(est, e0):
+                return f"matrix_eigenvectors(QR, max_iterations={its}, {dt}) modified the eigenvector estimate it was given in place (max change {float((est - e0).abs().max()):.2e})"
+            if not torch.equal(A, A0):
+                return f"matrix_eigenvectors(QR, {dt}) modified the input matrix in place"
+    return None
+
+
 def native_checkdiag():
     """the real check_diagonal on matrices with exactly-zero and with tiny non-zero off-diagonal entries"""
     import torch
@@ -542,6 +619,15 @@ def native_checkdiag():
             B = torch.diag(torch.tensor([1e-20, 3.0, 0.0], dtype=dt))
             if not mf.check_diagonal(B):
                 return f"check_diagonal reports an exactly diagonal matrix ({dt}) as not diagonal"
+        # few non-zero entries, all off the diagonal (row-sparse Gram matrix): not diagonal although count_nonzero <= n
+        C = torch.zeros(5, 5, dtype=dt)
+        C[0, 1] = C[1, 0] = 0.5
+        if mf.check_diagonal(C):
+            return f"check_diagonal reports a matrix whose only non-zero entries are OFF the diagonal ({dt}) as diagonal"
+        D2 = torch.zeros(4, 4, dtype=dt)
+        D2[0, 0], D2[1, 1], D2[0, 1], D2[1, 0] = 1.0, 1.0, 0.3, 0.3
+        if mf.check_diagonal(D2):
+            return f"check_diagonal reports a row-sparse non-diagonal matrix ({dt}) as diagonal"
     return None
 
 
@@ -942,6 +1028,9 @@ def run_qr_loop(case):
                     return None
                 qprev = env["Q"].v
                 kind, e2 = sp.body(env)
+                # frame: the caller's tensors (the STORED eigenbasis handed in as the estimate — with equal dtypes `.to()` returns the very same
+                # tensor — and the factor matrix) are never written
+                e2["__frame__"] = (est.cell.version, A.cell.version)
                 return A, qprev, kind, e2, (0 if start == "first" else z3.Int("iteration0"))
         n_step = 0
         for pi, p in enumerate(Explorer().run(fn_step)):
@@ -953,9 +1042,16 @@ def run_qr_loop(case):
                 continue
             n_step += 1
             A, qprev, kind, e2, it0 = p.value
-            goal = z3.And(z3.BoolVal(kind == "next"), e2["Q"].at(IDX) == z3.Select(qrQ(mm(A.v, qprev)), IDX), it_term(e2) == it0 + 1, it_term(e2) <= cap, it_term(e2) >= 1)
+            prev_t = SymTensor(qprev, dtype=torch.float64, shape=A.size())
+            want_err = prev_t.sub(e2["Q"]).norm().div_(prev_t.norm())  # the documented convergence measure: RELATIVE change of the estimate
+            got_err = e2["error"]
+            err_ok = (got_err.at(0) == want_err.at(0)) if isinstance(got_err, SymTensor) else z3.BoolVal(False)
+            goal = z3.And(z3.BoolVal(kind == "next"), e2["Q"].at(IDX) == z3.Select(qrQ(mm(A.v, qprev)), IDX), it_term(e2) == it0 + 1, it_term(e2) <= cap, it_term(e2) >= 1, err_ok)
+            fr = e2.get("__frame__")
+            out.append(result(f"{func}/loop/frame:estimate-and-matrix-not-written{tag}", func, "discharged" if fr == (0, 0) else "violated", backend="heap-versions", case=case,
+                              replay=dict(kind="qr_frame"), text=f"one iteration writes neither the caller's estimate (the stored eigenbasis) nor A (cell versions {fr})"))
             out.append(prove(f"{func}/loop/invariant-preserved{tag}", func, p.cond(), goal, model_vars=mvs, case=case, replay=dict(kind="eigvec", cfg="qr", shp="square", diag=False),
-                             text="every iteration, from ANY reachable state: Q <- qr(A @ Q).Q of the CURRENT Q; iteration advances by one within the budget"))
+                             text="every iteration, from ANY reachable state: Q <- qr(A @ Q).Q of the CURRENT Q; iteration advances by one within the budget; the convergence measure tested against the tolerance is the relative change ||Q_prev - Q|| / ||Q_prev||"))
         out.append(result(f"{func}/loop/cover:step-paths[{case}/{start}]", func, "violated" if n_step else "discharged", kind="cover", case=case))
 
     # -- exit
